@@ -61,6 +61,8 @@ def dump_value(v) -> dict:
     if isinstance(v, T.SigmaTimestampPart):
         return _v("tspart", num=num_of(v.number), s=cps(v.timestamp_part.name.lower()))
     if isinstance(v, T.SigmaNumber):
+        if abs(v.number) >= 2**31:  # beyond TLC's integers: the number as the text Python prints for it
+            return _v("bignum", s=cps(repr(v.number)))
         return _v("num", num=num_of(v.number))
     if isinstance(v, T.SigmaBool):
         return _v("bool", b=v.boolean)
@@ -75,6 +77,8 @@ def dump_value(v) -> dict:
     if isinstance(v, T.SigmaCIDRExpression):
         return _v("cidr", s=cps(v.cidr))
     if isinstance(v, T.SigmaCompareExpression):
+        if abs(v.number.number) >= 2**31:
+            return _v("cmp", parts=cps(repr(v.number.number)), s=cps(v.op.name.lower()))
         return _v("cmp", num=num_of(v.number.number), s=cps(v.op.name.lower()))
     if isinstance(v, T.SigmaFieldReference):
         return _v("fieldref", s=cps(v.field), flags=[int(v.starts_with), int(v.ends_with)])
